@@ -360,6 +360,11 @@ func jobsFor(prop, tier string) []Job {
 				mk("c11-long-val-65537", "table", "VH_C11_Long", params("LEN", 65537, "WHICH", 0)),
 				mk("c11-long-prefix-65536", "table", "VH_C11_Long", params("LEN", 65536, "WHICH", 2)),
 				mk("c11-long-key-65533", "table", "VH_C11_Long", params("LEN", 65533, "WHICH", 1)),
+				mk("c11-data-n4-prefixes", "table", "VH_C11_Data", params("N", 4, "KL", 3333, "VL", 1021)),
+				mk("c11-data-n5-short", "table", "VH_C11_Data", params("N", 5, "KL", 12121, "VL", 10101)),
+				mk("c11-table-n4", "table", "VH_C11_Table", params("N", 4, "KL", 2222, "VL", 1111)),
+				mk("c11-index-n4", "table", "VH_C11_Index", params("N", 4, "KL", 3210)),
+				mk("c11-wal-k4", "wal", "VH_C11_WAL", params("K", 4)),
 			)
 		}
 	case "C13":
